@@ -519,7 +519,10 @@ def run(model, col, tier):
     col.check(appended, "R10.2", f"{TYPES}::Scope.RegisterFunction keeps every overload",
               "overloads are appended to the list registered under the name", "registering a function does not append it to the list of its name (an overload replaces or loses another)", TYPES, rf)
     rfn = model.func(TYPES, "ResolveFunction")
-    col.check("scope.FindFunction(theType.GetName(), argumentTypes)" in unparse(rfn), "R10.2", f"{TYPES}::ResolveFunction", "unresolved calls go through FindFunction(name, argument types)", None, TYPES, rfn)
+    from ..sem import alpha as _alpha102
+
+    # ResolveFunction(theType, scope, argumentTypes): p1.FindFunction(p0.GetName(), p2)
+    col.check("p1.FindFunction(p0.GetName(), p2)" in _alpha102(rfn), "R10.2", f"{TYPES}::ResolveFunction", "unresolved calls go through FindFunction(name, argument types)", None, TYPES, rfn)
     # ---------------- R10.3 ------------------------------------------------------
     ctv = model.cls(CT, "ComputeTypeVisitor")
     ctm = ctv.own_method("v_Module")
